@@ -12,17 +12,20 @@ package mempool
 import (
 	"fmt"
 	"sort"
+	"sync"
 	"testing"
 	"time"
 
+	"github.com/33cn/chain33/queue"
 	"github.com/33cn/chain33/types"
 	"pgregory.net/rapid"
 	"verifharness/lib"
 )
 
 const (
-	vfFindingWrapper = "C22-group-wrapper-unverified"
-	vfFindingExpHdr  = "C22-group-expiry-skipped-when-header-parses"
+	vfFindingWrapper   = "C22-group-wrapper-unverified"
+	vfFindingExpHdr    = "C22-group-expiry-skipped-when-header-parses"
+	vfFindingNonceRace = "C22-concurrent-same-nonce-both-pooled"
 )
 
 // clause names (the property's conjunction, one entry per way of violating it that the generator knows)
@@ -506,5 +509,296 @@ func TestKnown_C22GroupExpirySkippedWhenHeaderParses(t *testing.T) {
 	if out := vfRunC22(c); out.entered {
 		lib.KnownOrViolation(t, "C22", "TestKnown_C22GroupExpirySkippedWhenHeaderParses", vfFindingExpHdr, c,
 			"an expired group member is admitted when the group's 32-byte header parses as protobuf: checkTx -> IsExpire calls GetTxGroup on the member, which decodes that hash as an (empty) group and skips the member's own expiry")
+	}
+}
+
+// ---------------------------------------------------------------- concurrent bursts: admission must not depend on a serial pipeline
+
+// The admission conditions that are evaluated on the pool's state (sender below its limit, not already pooled, eth
+// nonce not pending; also the pool's capacity) are checked early, in the event loop, and the transaction is pushed
+// much later, at the end of the asynchronous pipeline. A burst case pre-fills senders to just below their limit
+// (serially), then submits several transactions per sender WITHOUT waiting for replies, from one goroutine per
+// sender. In gated cases the fake blockchain peer holds its answers until every submission that can pass the early
+// checks is waiting in the pipeline, so the overlap is scripted, not a matter of timing; in free cases the scheduler
+// decides. Oracle at quiescence (= every reply received), from the property text:
+//
+//	(a) a submission whose reply is an error did not enter: its hash is not pooled (unless another submission of the
+//	    same hash was answered ok or it was pre-filled), and a hash is answered ok at most once;
+//	(b) per sender the pooled transactions are <= the limit and TxNumOfAccount says the same number; pool <= capacity;
+//	    the pooled transactions of an eth-signed sender carry pairwise distinct nonces;
+//	(c) a submission whose reply is ok is pooled (the case has no removals).
+type vfBurstTx struct {
+	Spec  []vfTxSpec `json:"spec"` // one = plain, two = group
+	Twice bool       `json:"twice,omitempty"`
+}
+
+type vfBurstCase struct {
+	Cap     int64                  `json:"cap"`
+	PerAcc  int64                  `json:"perAcc"`
+	Gated   bool                   `json:"gated"`
+	Prefill map[string]int         `json:"prefill"` // sender index -> serially pooled transactions
+	Burst   map[string][]vfBurstTx `json:"burst"`   // sender index -> what that sender's goroutine submits
+}
+
+func TestPropAdmissionBurst(t *testing.T) {
+	defer lib.Flush()
+	vfInitSenders()
+	rapid.Check(t, func(t *rapid.T) {
+		lib.Eval()
+		intn := func(n int, label string) int { return rapid.IntRange(0, n-1).Draw(t, label) }
+		c := &vfBurstCase{PerAcc: int64(1 + intn(3, "perAcc")), Gated: intn(3, "gated") > 0, Prefill: map[string]int{}, Burst: map[string][]vfBurstTx{}}
+		senders := []int{0, 1, 2, 4, 5}[:2+intn(4, "nsenders")]
+		uniq, total := int64(0), 0
+		ethNonce := map[int]int64{}
+		spec := func(s int, compete bool) vfTxSpec {
+			uniq++
+			sp := vfTxSpec{Sender: s, To: intn(3, "to"), Nonce: 5000 + uniq, Fee: vfFee + uniq}
+			if vfSenders[s].eth { // distinct consecutive nonces, now and then the previous one again (a competing transaction)
+				again := ethNonce[s] > 0 && compete && intn(4, "sameNonce") == 0
+				if again && lib.Known(vfFindingNonceRace) {
+					// known finding: two same-nonce transactions of one sender in the pipeline at once are both pooled;
+					// the class is excluded by construction so that the burst search goes on behind it
+					lib.ExcludedKnown(vfFindingNonceRace)
+					again = false
+				}
+				if !again {
+					ethNonce[s]++
+				}
+				sp.Nonce = ethNonce[s] - 1
+			}
+			return sp
+		}
+		for _, s := range senders {
+			c.Prefill[fmt.Sprint(s)] = int(c.PerAcc) - intn(3, "below") // at the limit, one below, two below
+			if c.Prefill[fmt.Sprint(s)] < 0 {
+				c.Prefill[fmt.Sprint(s)] = 0
+			}
+			total += c.Prefill[fmt.Sprint(s)]
+		}
+		nburst := 0
+		for _, s := range senders {
+			for i, n := 0, 1+intn(4, "burst"); i < n; i++ {
+				b := vfBurstTx{Spec: []vfTxSpec{spec(s, true)}, Twice: intn(8, "twice") == 0}
+				if !vfSenders[s].eth && intn(8, "group") == 0 {
+					b.Spec = append(b.Spec, spec(senders[intn(len(senders), "member")], false))
+					b.Spec[1].Nonce += 1 << 20
+				}
+				c.Burst[fmt.Sprint(s)] = append(c.Burst[fmt.Sprint(s)], b)
+				nburst++
+			}
+		}
+		c.Cap = int64(total + nburst + 5)
+		if intn(3, "nearCapacity") == 0 { // room for only one or two more
+			c.Cap = int64(total + 1 + intn(2, "room"))
+		}
+
+		e := vfNewEnv(vfOpts{cap: c.Cap, perAcc: c.PerAcc, maxLast: 10})
+		defer e.close()
+		prefilled := map[string]bool{}
+		for _, s := range senders {
+			for i := 0; i < c.Prefill[fmt.Sprint(s)]; i++ {
+				tx := vfBuildTx(e.cfg, spec(s, false))
+				if ok, msg := e.submit(tx); !ok {
+					lib.Inconclusive("C22 burst fixture: prefill rejected: %s (case %+v)", msg, *c)
+				}
+				prefilled[string(tx.Hash())] = true
+			}
+		}
+		// build the burst and count the submissions that will pass the early per-sender test (every member's sender
+		// below the limit as pre-filled): exactly those reach the duplicate check, where the gate holds them
+		type sub struct {
+			tx       *types.Transaction
+			ok, done bool
+			msg      string
+		}
+		plan := map[int][]*sub{}
+		reach, reachEth := 0, 0
+		for _, s := range senders {
+			for _, b := range c.Burst[fmt.Sprint(s)] {
+				var tx *types.Transaction
+				if len(b.Spec) == 1 {
+					tx = vfBuildTx(e.cfg, b.Spec[0])
+				} else {
+					tx, _ = vfBuildGroup(e.cfg, b.Spec)
+				}
+				passes := true
+				for _, m := range b.Spec {
+					if int64(c.Prefill[fmt.Sprint(m.Sender)]) >= c.PerAcc {
+						passes = false
+					}
+				}
+				for i := 0; i < 1+map[bool]int{true: 1}[b.Twice]; i++ {
+					plan[s] = append(plan[s], &sub{tx: tx})
+					if passes {
+						reach++
+						if vfSenders[s].eth {
+							reachEth++
+						}
+					}
+				}
+			}
+		}
+		if c.Gated && reach > 1 {
+			if reach > processNum { // the pipeline has processNum workers per stage: no more than that can wait at once
+				reach, reachEth = processNum, 0
+			}
+			e.chain.mu.Lock()
+			e.chain.gate = reach
+			if reachEth > 1 {
+				e.chain.nonceGate = reachEth
+			}
+			e.chain.mu.Unlock()
+		}
+		var wg sync.WaitGroup
+		for _, s := range senders {
+			wg.Add(1)
+			go func(subs []*sub) {
+				defer wg.Done()
+				cli := e.q.Client()
+				var msgs []*queue.Message
+				for _, sb := range subs { // the whole burst first ...
+					m := cli.NewMessage("mempool", types.EventTx, sb.tx)
+					if err := cli.Send(m, true); err != nil {
+						lib.Inconclusive("send failed: %v", err)
+					}
+					msgs = append(msgs, m)
+				}
+				for i, m := range msgs { // ... then every reply: quiescence is "all replies in", never a sleep
+					resp, err := cli.WaitTimeout(m, vfWatchdog)
+					if err == queue.ErrQueueTimeout || resp == nil {
+						lib.Inconclusive("no reply to a burst submission within %v (gate %v)", vfWatchdog, c.Gated)
+					}
+					r := resp.GetData().(*types.Reply)
+					subs[i].ok, subs[i].msg, subs[i].done = r.IsOk, string(r.Msg), true
+				}
+			}(plan[s])
+		}
+		wg.Wait()
+
+		fail := func(format string, a ...interface{}) {
+			lib.Violation(t, "C22", "TestPropAdmissionBurst", c, format, a...)
+		}
+		pooled := vfHashSet(e.entries())
+		listed := map[string]bool{}
+		for _, tx := range e.call(types.EventTxList, &types.TxHashList{Count: c.Cap + 10}).GetData().(*types.ReplyTxList).Txs {
+			listed[string(tx.Hash())] = true
+		}
+		okCount, errSeen, okSeen := map[string]int{}, 0, 0
+		for _, s := range senders {
+			for _, sb := range plan[s] {
+				if sb.ok {
+					okCount[string(sb.tx.Hash())]++
+					okSeen++
+				} else {
+					errSeen++
+					lib.Class("burst_reply:" + sb.msg)
+				}
+			}
+		}
+		for _, s := range senders {
+			for _, sb := range plan[s] {
+				h := string(sb.tx.Hash())
+				in := pooled[h] || listed[h] || e.mem.cache.Exist(h)
+				switch {
+				case sb.ok && !(pooled[h] && e.mem.cache.Exist(h)): // (c)
+					fail("sender %d: submission %s was answered ok but is not in the pool", s, vfHex(sb.tx.Hash()))
+				case !sb.ok && in && okCount[h] == 0 && !prefilled[h]: // (a)
+					fail("sender %d: submission %s was refused (%s) but is in the pool (walk %v, producer list %v, Exist %v)", s, vfHex(sb.tx.Hash()), sb.msg, pooled[h], listed[h], e.mem.cache.Exist(h))
+				case okCount[h] > 1: // (a)
+					fail("sender %d: submission %s was answered ok %d times", s, vfHex(sb.tx.Hash()), okCount[h])
+				}
+			}
+		}
+		// (b)
+		items := e.entries()
+		if int64(len(items)) > c.Cap || int64(e.mem.Size()) > c.Cap {
+			fail("pool holds %d transactions, capacity %d", len(items), c.Cap)
+		}
+		count, nonces := map[string]int64{}, map[string]map[int64]bool{}
+		for _, it := range items {
+			from := it.Value.From()
+			count[from]++
+			if types.IsEthSignID(it.Value.GetSignature().GetTy()) {
+				if nonces[from] == nil {
+					nonces[from] = map[int64]bool{}
+				}
+				if nonces[from][it.Value.Nonce] {
+					fail("eth sender %s has two pooled transactions with nonce %d", from, it.Value.Nonce)
+				}
+				nonces[from][it.Value.Nonce] = true
+			}
+		}
+		oversubscribed := false
+		for _, s := range senders {
+			a := vfSenders[s].addr
+			if count[a] > c.PerAcc {
+				fail("sender %d has %d pooled transactions, limit %d", s, count[a], c.PerAcc)
+			}
+			if n := e.mem.TxNumOfAccount(a); n != count[a] {
+				fail("sender %d: TxNumOfAccount=%d, pool holds %d of its transactions", s, n, count[a])
+			}
+			if p := int64(c.Prefill[fmt.Sprint(s)]); p < c.PerAcc && p+int64(len(plan[s])) > c.PerAcc {
+				oversubscribed = true // below the limit, and more in flight than the limit leaves room for
+			}
+		}
+		if c.Gated {
+			lib.Class("burst_gated")
+		} else {
+			lib.Class("burst_free_running")
+		}
+		if oversubscribed {
+			lib.Class("burst_oversubscribes_a_sender_below_its_limit")
+		}
+		if c.Cap < int64(total+nburst) {
+			lib.Class("burst_exceeds_pool_capacity")
+		}
+		if oversubscribed && errSeen > 0 && okSeen > 0 {
+			lib.NonTrivialCase(c)
+		}
+	})
+}
+
+// Minimal case: one eth-signed sender, current nonce 0, two different transactions with nonce 0 submitted without
+// waiting for the first reply (the fake blockchain peer answers both duplicate checks together). The nonce-pending
+// test (evmTxNonceCheck) and the push are two separate critical sections, so both can pass the test before either
+// is pushed. Which of the two workers runs first is up to the scheduler: the case is repeated until it shows or 5000
+// attempts are over (the clock or scheduler can only hide the finding, never invent it).
+func TestKnown_C22ConcurrentSameNonce(t *testing.T) {
+	defer lib.Flush()
+	vfInitSenders()
+	e := vfNewEnv(vfOpts{cap: 10, perAcc: 5, maxLast: 5})
+	defer e.close()
+	for attempt := 0; attempt < 5000; attempt++ {
+		specs := []vfTxSpec{{Sender: 4, To: 0, Nonce: 0, Fee: vfFee + int64(2*attempt)}, {Sender: 4, To: 1, Nonce: 0, Fee: vfFee + int64(2*attempt+1)}}
+		txs := []*types.Transaction{vfBuildTx(e.cfg, specs[0]), vfBuildTx(e.cfg, specs[1])}
+		e.chain.mu.Lock()
+		e.chain.gate, e.chain.nonceGate = 2, 2
+		e.chain.mu.Unlock()
+		var msgs []*queue.Message
+		for _, tx := range txs {
+			m := e.cli.NewMessage("mempool", types.EventTx, tx)
+			if err := e.cli.Send(m, true); err != nil {
+				lib.Inconclusive("send failed: %v", err)
+			}
+			msgs = append(msgs, m)
+		}
+		oks := 0
+		for _, m := range msgs {
+			resp, err := e.cli.WaitTimeout(m, vfWatchdog)
+			if err == queue.ErrQueueTimeout || resp == nil {
+				lib.Inconclusive("no reply within %v", vfWatchdog)
+			}
+			if resp.GetData().(*types.Reply).IsOk {
+				oks++
+			}
+		}
+		pooled := len(e.entries())
+		e.call(types.EventDelTxList, &types.TxHashList{Hashes: [][]byte{txs[0].Hash(), txs[1].Hash()}}) // empty pool for the next attempt
+		if oks == 2 || pooled == 2 {
+			lib.KnownOrViolation(t, "C22", "TestKnown_C22ConcurrentSameNonce", vfFindingNonceRace,
+				map[string]interface{}{"sender": 4, "curNonce": 0, "txs": specs, "attempt": attempt, "okReplies": oks, "pooled": pooled},
+				"two different eth-signed transactions of one sender with the same nonce, in the admission pipeline at once, are both admitted: evmTxNonceCheck reads the sender's pending nonces and PushTx inserts in two separate critical sections")
+			return
+		}
 	}
 }
